@@ -161,10 +161,10 @@ func ruleHeredoc(c *Ctx, f *ssa.Function) {
 	}
 }
 
-// flattenTemplate: left-to-right parts of a + chain; constants merged.
+// flattenTemplate: left-to-right parts of a concatenation (+ chains,
+// strings.Join, builders); constants merged.
 func flattenTemplate(v ssa.Value) []tplPart {
 	var out []tplPart
-	var rec func(v ssa.Value, d int)
 	add := func(p tplPart) {
 		if p.hole == "" && len(out) > 0 && out[len(out)-1].hole == "" {
 			out[len(out)-1].konst += p.konst
@@ -172,23 +172,17 @@ func flattenTemplate(v ssa.Value) []tplPart {
 		}
 		out = append(out, p)
 	}
-	rec = func(v ssa.Value, d int) {
-		if bo, ok := v.(*ssa.BinOp); ok && bo.Op == token.ADD && d < 40 {
-			rec(bo.X, d+1)
-			rec(bo.Y, d+1)
-			return
-		}
-		if s, ok := constString(v); ok {
+	for _, pv := range concatParts(v, 0) {
+		if s, ok := constString(pv); ok {
 			add(tplPart{konst: s})
-			return
+			continue
 		}
-		if _, ok := v.(*ssa.Phi); ok {
-			add(tplPart{hole: "ACC", val: v}) // the script accumulated so far
-			return
+		if _, ok := pv.(*ssa.Phi); ok {
+			add(tplPart{hole: "ACC", val: pv})
+			continue
 		}
-		add(tplPart{hole: envHole(v), val: v})
+		add(tplPart{hole: envHole(pv), val: pv})
 	}
-	rec(v, 0)
 	return out
 }
 
